@@ -615,9 +615,14 @@ pub fn render(r: &mut Rng, d: &SDoc, o: &RenderOpts) -> Rendering {
     }
     if o.declaration && !d.fragment {
         let q = if r.chance(1, 2) { '"' } else { '\'' };
-        ren.text.push_str(&format!("<?xml version={}1.0{}", q, q));
-        if r.chance(1, 2) { ren.text.push_str(&format!(" encoding={}UTF-8{}", q, q)); }
-        if r.chance(1, 3) { ren.text.push_str(&format!(" standalone={}{}{}", q, r.pick(&["yes", "no"]), q)); }
+        // XMLDecl ::= '<?xml' VersionInfo EncodingDecl? SDDecl? S? '?>'; every S is any white space, Eq ::= S? '=' S?
+        let s1 = |r: &mut Rng| -> &'static str { if r.chance(3, 4) { " " } else { *r.pick(&["\t", "\n", "  ", "\r\n"]) } };
+        let eq = |r: &mut Rng| -> &'static str { if r.chance(3, 4) { "=" } else { *r.pick(&[" =", "= ", " = ", "\t=\n"]) } };
+        let (a, b) = (s1(r), eq(r));
+        ren.text.push_str(&format!("<?xml{}version{}{}1.0{}", a, b, q, q));
+        if r.chance(1, 2) { let (a, b) = (s1(r), eq(r)); ren.text.push_str(&format!("{}encoding{}{}{}{}", a, b, q, r.pick(&["UTF-8", "utf-8", "UTF8"]), q)); }
+        if r.chance(1, 3) { let (a, b) = (s1(r), eq(r)); ren.text.push_str(&format!("{}standalone{}{}{}{}", a, b, q, r.pick(&["yes", "no"]), q)); }
+        if r.chance(1, 4) { ren.text.push_str(*r.pick(&[" ", "\n", "\t "])); }
         ren.text.push_str("?>");
         ren.count("doc.declaration");
     }
@@ -729,6 +734,11 @@ pub fn damage(ren: &Rendering, fragment: bool) -> Vec<(String, usize, String)> {
             out.push(("comment-ending-in-hyphen".into(), c, ins(c, "<!-- a --->")));
             out.push(("cdata-end-in-text".into(), c, ins(c, "a]]>b")));
             out.push(("xml-declaration-in-content".into(), c, ins(c, "<?xml version='1.0'?>")));
+            // PITarget ::= Name - (('X' | 'x') ('M' | 'm') ('L' | 'l')): the target xml is reserved in every case and with any
+            // white space after it
+            for bad in ["<?xml\tversion='1.0'?>", "<?xml\nx?>", "<?XML x?>", "<?Xml?>", "<?xMl\ty?>", "<?xml?>"] {
+                out.push((format!("reserved-pi-target:{}", bad.escape_default()), c, ins(c, bad)));
+            }
             for bad in ["&#0;", "&#1;", "&#xB;", "&#xD800;", "&#xDFFF;", "&#xFFFE;", "&#xFFFF;", "&#x110000;", "&#4294967296;", "&#+65;", "&#x+41;", "&#6 5;", "&#xG;", "&#;", "&#x;", "&#-1;", "&foo;", "&amp", "&#12", "&"] {
                 out.push((format!("bad-reference-content:{}", bad), c, ins(c, &format!("x{}y", bad))));
             }
@@ -750,11 +760,13 @@ pub fn damage(ren: &Rendering, fragment: bool) -> Vec<(String, usize, String)> {
             out.push(("dtd-with-entity".into(), a, ins(a, "<!DOCTYPE a [<!ENTITY e \"x\">]>")));
             out.push(("stray-end-tag-top".into(), b, ins(b, "</zz9>")));
             let body_start = if t.starts_with('\u{feff}') { 3 } else { 0 };
-            let after_decl = if t[body_start..].starts_with("<?xml ") { t[body_start..].find("?>").map(|i| body_start + i + 2).unwrap_or(body_start) } else { body_start };
+            let after_decl = if t[body_start..].starts_with("<?xml") && t[body_start + 5..].starts_with(|ch: char| ch == ' ' || ch == '\t' || ch == '\r' || ch == '\n') { t[body_start..].find("?>").map(|i| body_start + i + 2).unwrap_or(body_start) } else { body_start };
             for v in ["1.1", "2.0", "1.00", ""] {
                 out.push((format!("version:{}", v), 0, format!("{}<?xml version=\"{}\"?>{}", &t[..body_start], v, &t[after_decl..])));
             }
             out.push(("declaration-not-at-start".into(), 0, format!("{} <?xml version=\"1.0\"?>{}", &t[..body_start], &t[after_decl..])));
+            out.push(("reserved-pi-target-after-root".into(), b, ins(b, "<?xml\tversion='1.0'?>")));
+            out.push(("reserved-pi-target-after-root".into(), b, ins(b, "<?XmL x?>")));
             // truncations: the document cut inside the root element
             let len = b - a;
             for k in 1..6 {
